@@ -104,7 +104,32 @@ class Flow:
             return ("call", fn_name(f["fn"]), args, bb)
         return ("icall", self.operand_expr(f, depth + 1), args, bb)
 
+    def variant_payload_operand(self, p):
+        """`(_x as V).i` where every definition of _x is an enum aggregate and exactly one of them builds variant V:
+        the operand stored as field i by that definition (and the remaining projection), else None."""
+        pr = p["p"]
+        if len(pr) < 2 or pr[0]["k"] != "downcast" or pr[1]["k"] != "field":
+            return None
+        ds = self.defs.get(p["l"], [])
+        if not ds or p["l"] in self.partial:
+            return None
+        hit = None
+        for (bb, idx, kind, node) in ds:
+            if kind != "assign" or node["rv"]["k"] != "aggregate" or node["rv"].get("agg") != "adt" or node["rv"].get("variant") is None:
+                return None
+            if node["rv"]["variant"] == pr[0]["variant"]:
+                if hit is not None:
+                    return None
+                hit = node["rv"]
+        if hit is None or pr[1]["i"] >= len(hit["ops"]):
+            return None
+        return hit["ops"][pr[1]["i"]], pr[2:]
+
     def place_expr(self, p, depth=0):
+        vp = self.variant_payload_operand(p)
+        if vp is not None and vp[0]["k"] in ("copy", "move"):
+            op, rest = vp
+            return self.place_expr({"l": op["place"]["l"], "p": list(op["place"]["p"]) + list(rest), "ty": p.get("ty")}, depth + 1)
         base = self.local_expr(p["l"], depth + 1)
         elems = []
         for e in p["p"]:
@@ -264,6 +289,11 @@ class Flow:
         Returns a list starting with `place` itself."""
         out = [place]
         if _depth > 6:
+            return out
+        vp = self.variant_payload_operand(place)
+        if vp is not None and vp[0]["k"] in ("copy", "move"):
+            op, rest = vp
+            out.extend(self.alias_places({"l": op["place"]["l"], "p": list(op["place"]["p"]) + list(rest), "ty": place["ty"]}, _depth + 1))
             return out
         sd = self.single_def(place["l"])
         if sd in (None, "param") or sd[2] != "assign":
@@ -1169,3 +1199,44 @@ def expr_shape(e, depth=0):
     if k == "discr":
         return "discr(%s)" % expr_shape(e[1], depth + 1)
     return repr(e)
+
+
+def only_via(body, flow, edge_pred, start=0):
+    """Non-cleanup blocks that are reachable from `start` only across an edge whose label satisfies `edge_pred(label)`
+    (must-pass-through an establishing edge: what remains reachable after removing those edges is the complement)."""
+    seen = set()
+    work = [start]
+    while work:
+        x = work.pop()
+        if x in seen:
+            continue
+        seen.add(x)
+        labs = flow.edge_labels(x)
+        for y in body.normal_succ(x):
+            if any(edge_pred(l_) for l_ in labs.get(y, [])):
+                continue
+            work.append(y)
+    return {x for x in range(body.n) if x not in seen and not body.is_cleanup(x)}
+
+
+def all_arrivals_cross(body, flow, target_bb, edge_pred, loop_visits=2):
+    """Every flag/variant-feasible path that reaches `target_bb` crosses, before arriving, an edge whose label satisfies
+    edge_pred.  Returns (ok, number of arrivals, offending path or None)."""
+    labels = {}
+    n = 0
+    for kind, path, know in sensitive_paths(body, flow, loop_visits):
+        for i, bb in enumerate(path):
+            if bb != target_bb:
+                continue
+            n += 1
+            crossed = False
+            for j in range(i):
+                a, b_ = path[j], path[j + 1]
+                if a not in labels:
+                    labels[a] = flow.edge_labels(a)
+                if any(edge_pred(l_) for l_ in labels[a].get(b_, [])):
+                    crossed = True
+                    break
+            if not crossed:
+                return False, n, path[:i + 1]
+    return n > 0, n, None
